@@ -29,7 +29,9 @@ Record case := mkcase {
   c_obs_result : res (list (string * string));     (* how it ended; Ok = the parameter bindings inside the callable *)
   c_untyped : list (string * dkind);               (* un-annotated parameters with a default: what kind of value it is *)
   c_obs_inferred : list (string * ity);            (* the type of their field in the first request's class, as observed *)
-  c_pair : option pairinfo                         (* Some: a two-callable history (c_main = false) *)
+  c_pair : option pairinfo;                        (* Some: a two-callable history (c_main = false) *)
+  c_obs_ftype_ok : list (string * bool)            (* per field of the first request's class: does it carry the parameter's own
+                                                      annotation (for an un-annotated parameter: the class-level one)? *)
 }.
 
 Definition vals_of (l : list (string * string)) (n : string) : string :=
@@ -111,6 +113,7 @@ Definition model_ok (c : case) : bool :=
         list_eqb (res_eqb Nat.eqb) (snd (cf_session String.eqb facts_gen c.(c_sig) ([], 0) c.(c_reqs))) c.(c_obs_session)
         && fields_eqb (model_fields c.(c_sig) r0) c.(c_obs_fields)
         && inferred_eqb (model_inferred c.(c_sig) r0 c.(c_untyped)) c.(c_obs_inferred)
+        && forallb snd c.(c_obs_ftype_ok)      (* the type chain regenerated (textually) by translate/Front.py: annotation first *)
         && trace_eqb (cf_run facts_gen c.(c_sig) (ignore_names (rq_ignore r0)) (rq_over r0) (parsed_of c) c.(c_xpos) c.(c_xkw))
                      observed
     end
@@ -129,6 +132,7 @@ Definition spec_ok (c : case) : bool :=
         spec_session String.eqb c.(c_reqs) c.(c_obs_session)
         && spec_fields String.eqb c.(c_sig) (ignore_names (rq_ignore r0)) (rq_over r0) c.(c_obs_fields)
         && spec_inferred c.(c_untyped) c.(c_obs_inferred)
+        && forallb snd c.(c_obs_ftype_ok)
         && match c.(c_obs_fields) with
            | Ok fs => spec_partial_call String.eqb c.(c_sig) (map fst fs) (parsed_of c) c.(c_xpos) c.(c_xkw) observed
            | Err _ => false
